@@ -288,6 +288,16 @@ impl Changeset {
 
     pub(crate) fn truncate(&mut self, len: usize) {
         debug!(target: "rustyline", "Changeset::truncate({})", len);
+        // groups still open among the discarded changes are discarded with them
+        let (mut begins, mut ends) = (0u32, 0u32);
+        for change in self.undos.iter().skip(len) {
+            match change {
+                Change::Begin => begins += 1,
+                Change::End => ends += 1,
+                _ => {}
+            }
+        }
+        self.undo_group_level = (self.undo_group_level + ends).saturating_sub(begins);
         self.undos.truncate(len);
     }
 
